@@ -21,11 +21,37 @@ pub trait Val: Copy + Clone + PartialEq + PartialOrd + std::fmt::Debug + Send + 
     fn code(&self) -> u8;
 }
 impl Val for u8 {
+    /// the default (code 0) is deliberately not the all-zero bit pattern
     fn make(i: u8) -> u8 {
-        i
+        i + 100
     }
     fn code(&self) -> u8 {
-        *self
+        self.wrapping_sub(100)
+    }
+}
+/// A payload whose equality looks at one field only: values 1 and 2 compare equal but differ.
+#[derive(Clone, Copy, Debug)]
+pub struct Ign(pub u8, pub u8);
+impl PartialEq for Ign {
+    fn eq(&self, o: &Ign) -> bool {
+        self.0 == o.0
+    }
+}
+impl PartialOrd for Ign {
+    fn partial_cmp(&self, o: &Ign) -> Option<std::cmp::Ordering> {
+        self.0.partial_cmp(&o.0)
+    }
+}
+impl Val for Ign {
+    fn make(i: u8) -> Ign {
+        match i {
+            0 => Ign(3, 0),
+            1 => Ign(5, 1),
+            _ => Ign(5, 2),
+        }
+    }
+    fn code(&self) -> u8 {
+        self.1
     }
 }
 impl Val for Wide {
@@ -47,23 +73,24 @@ impl Val for Wide40 {
         self.0[0] as u8
     }
 }
-/// A float payload: value 2 is a NaN (never equal to itself under PartialEq), told apart by bits.
+/// A float payload: the default is +0.0, value 1 is -0.0 (equal to the default under PartialEq
+/// but a different value), value 2 is a NaN (never equal to itself); told apart by their bits.
 #[derive(Clone, Copy, PartialEq, PartialOrd, Debug)]
 pub struct Fl(pub f64);
 impl Val for Fl {
     fn make(i: u8) -> Fl {
         match i {
             0 => Fl(0.0),
-            1 => Fl(1.5),
+            1 => Fl(-0.0),
             _ => Fl(f64::NAN),
         }
     }
     fn code(&self) -> u8 {
         if self.0.is_nan() {
             2
-        } else if self.0 == 1.5 {
+        } else if self.0.to_bits() == (-0.0f64).to_bits() {
             1
-        } else if self.0 == 0.0 {
+        } else if self.0.to_bits() == 0 {
             0
         } else {
             254
@@ -240,6 +267,10 @@ fn explore<T: Val>(run: &Run, tyname: &'static str, size: usize, depth: usize, s
 pub fn large_alphabet(size: usize) -> Vec<u64> {
     let s = size as u64;
     let mut v = vec![0, 1, s - 1, s, s + 1, 2 * s, s << 20, 1u64 << 41, (1u64 << 41) + 1, (1u64 << 63) | 1, u64::MAX, (1u64 << 41) + s];
+    if size >= 64 {
+        // slots that differ from slot 0 / 1 in a single middle bit
+        v.extend([31, 32, 33, s / 2, s / 2 + 1]);
+    }
     v.sort();
     v.dedup();
     v
@@ -378,7 +409,7 @@ fn constructions(run: &Run) {
     }
 }
 
-pub const RULE: &str = "E2 over operation sequences: for each table size in {1, 2, 4, 8} (thorough: also 16) and each value type (u8 and a 16-byte struct), EVERY sequence of up to D operations (D = 4 quick, 5 thorough) over the alphabet {add, replace_if with always / never / old==default / old<new} x 6 hashes (0, 1, size-1, size, size+1, 2^32+1, 2^63, u64::MAX, 2*size+1 reduced to 6: slot-colliding and non-colliding, high-bit) x values {1, 2}; every sequence is replayed on a fresh real table and on a slot-array model (which hashes share a slot is observed on fresh tables, not assumed: the relation must be an equivalence with at most `size` classes); after it get(h) for every alphabet hash and the value handed to every predicate must agree. Larger tables (32, 64, 1024, 65536 to depth 2; 2^20 to depth 1) with a 12-hash alphabet (0, 1, size-1, size, size+1, 2*size, size*2^20, 2^41, 2^41+1, 2^41+size, 2^63+1, u64::MAX) and two further value types (40-byte struct, float payload whose value 2 is a NaN) are explored the same way. Construction: every size in 0..=1025 and 2^k, 2^k +- 1 for k <= 20 panics iff it is not a power of two, and a fresh table answers as (hash 0, default). Out-of-table access aborts loudly in this debug-assertion build. states = sequences (histories), transitions = operations replayed. distinct_nontrivial = distinct model states reached";
+pub const RULE: &str = "E2 over operation sequences: for each table size in {1, 2, 4, 8} (thorough: also 16) and each value type (u8 and a 16-byte struct), EVERY sequence of up to D operations (D = 4 quick, 5 thorough) over the alphabet {add, replace_if with always / never / old==default / old<new} x 6 hashes (0, 1, size-1, size, size+1, 2^32+1, 2^63, u64::MAX, 2*size+1 reduced to 6: slot-colliding and non-colliding, high-bit) x values {1, 2}; every sequence is replayed on a fresh real table and on a slot-array model (which hashes share a slot is observed on fresh tables, not assumed: the relation must be an equivalence with at most `size` classes); after it get(h) for every alphabet hash and the value handed to every predicate must agree. Larger tables (32, 64, 1024, 65536 to depth 2; 2^20 to depth 1) with a 12-hash alphabet (0, 1, size-1, size, size+1, 2*size, size*2^20, 2^41, 2^41+1, 2^41+size, 2^63+1, u64::MAX) and three further value types (40-byte struct; float payload whose default is +0.0, value 1 is -0.0 and value 2 a NaN; a struct whose equality ignores one field), the default never being the all-zero bit pattern; for sizes >= 64 the alphabet also holds 31, 32, 33, size/2, size/2+1 are explored the same way. Construction: every size in 0..=1025 and 2^k, 2^k +- 1 for k <= 20 panics iff it is not a power of two, and a fresh table answers as (hash 0, default). Out-of-table access aborts loudly in this debug-assertion build. states = sequences (histories), transitions = operations replayed. distinct_nontrivial = distinct model states reached";
 
 pub fn run(tier: Tier) -> i32 {
     let run = Arc::new(Run::new("C19", tier, COUNTERS));
@@ -401,6 +432,7 @@ pub fn run(tier: Tier) -> i32 {
     for &size in [1usize, 4, 64].iter() {
         explore_with::<Wide40>(&run, "Wide40", size, tier.pick(2, 3), &states, large_alphabet(size));
         explore_with::<Fl>(&run, "Fl", size, tier.pick(2, 3), &states, large_alphabet(size));
+        explore_with::<Ign>(&run, "Ign", size, tier.pick(2, 3), &states, large_alphabet(size));
     }
     let d = states.lock().unwrap().len() as u64;
     run.add("distinct_model_states", d);
@@ -428,6 +460,8 @@ pub fn replay(case: &Value) -> i32 {
             }
             let r = if case["type"] == json!("Wide40") {
                 guard::lib(|| infer_slots::<Wide40>(size, &alphabet).and_then(|sl| run_case::<Wide40>(size, &ops, &alphabet, &sl)))
+            } else if case["type"] == json!("Ign") {
+                guard::lib(|| infer_slots::<Ign>(size, &alphabet).and_then(|sl| run_case::<Ign>(size, &ops, &alphabet, &sl)))
             } else if case["type"] == json!("Fl") {
                 guard::lib(|| infer_slots::<Fl>(size, &alphabet).and_then(|sl| run_case::<Fl>(size, &ops, &alphabet, &sl)))
             } else if case["type"] == json!("u8") {
